@@ -238,6 +238,19 @@ M("c19-gate-open-when-time-earlier", "C19", "flexstack/management/dcc_adaptive.p
   "        if self._t_go is None:\n            return True\n        if self._t_pg is not None and t < self._t_pg:\n            return True\n        return t >= self._t_go - self._T_EPSILON",
   "gate open for a caller whose time stamp is earlier than the last admission")
 
+M("c01-cbf-buffer-shared-by-all-routers", "C01", "flexstack/geonet/router.py", "        self._cbf_buffer: dict = {}",
+  "        self._cbf_buffer: dict = Router.__init__.__dict__.setdefault('cbf', {})", "one CBF packet buffer shared by every router of the process")
+M("c15-ls-request-sending-exception-escapes", "C15", "flexstack/geonet/router.py", "            + ls_req_header.encode()\n        )\n        try:\n            if self.link_layer:\n                self.link_layer.send(packet)\n        except (PacketTooLongException, SendingException):\n            pass",
+  "            + ls_req_header.encode()\n        )\n        try:\n            if self.link_layer:\n                self.link_layer.send(packet)\n        except PacketTooLongException:\n            pass", "a refused LS Request frame raises into the caller / the retransmission timer")
+M("c15-cbf-send-exception-escapes", "C15", "flexstack/geonet/router.py", "                self.link_layer.send(full_packet)\n        except (PacketTooLongException, SendingException):\n            pass",
+  "                self.link_layer.send(full_packet)\n        except PacketTooLongException:\n            pass", "a refused contention-based forward raises out of the timer thread")
+M("c16-delete-handler-reenters-lock", "C16", "flexstack/facilities/local_dynamic_map/ldm_maintenance.py", "data_containers {len(self.data_containers.all())}\")",
+  "data_containers {len(self.get_all_data_containers())}\")", "error handler of a removal takes the maintenance lock again")
+M("c18-breakup-unknown-reason-dropped", "C18", "flexstack/facilities/vru_awareness_service/vru_clustering.py",
+  "                    if reason_str == ClusterBreakupReason.RECEPTION_OF_CPM_CONTAINING_CLUSTER.value:",
+  "                    if reason_str not in [r_.value for r_ in ClusterBreakupReason]:\n                        return\n                    if reason_str == ClusterBreakupReason.RECEPTION_OF_CPM_CONTAINING_CLUSTER.value:",
+  "break-up with a reason the enum has no name for is ignored")
+
 # ---------------------------------------------------------------- C09
 M("c09-no-sig", "C09", "flexstack/security/certificate.py",
   "                if self.verify_signature(\n                    backend,\n                    self.certificate[\"toBeSigned\"],\n                    self.certificate[\"signature\"],\n                    self.issuer.certificate[\"toBeSigned\"][\"verifyKeyIndicator\"][1],\n                ):\n                    return True",
